@@ -37,6 +37,10 @@ Enc(m, tag) ==
         <<InterT(<<TypeLit(<<Prop("z", "ident", FALSE, Num)>>), Ref("Pick", <<TypeLit(m), LitT("str", "a")>>)>>), <<>>>>,
         <<InterT(<<TypeLit(<<Prop("r", "ident", FALSE, Num)>>), Ref("Partial", <<TypeLit(m)>>)>>), <<>>>>,
         <<InterT(<<Ref("Partial", <<TypeLit(m)>>), TypeLit(<<Prop("r", "ident", FALSE, Num)>>)>>), <<>>>>,
+        <<InterT(<<TypeLit(<<Prop("r", "ident", TRUE, Num), Method("rm", TRUE)>>), Ref("Required", <<TypeLit(m)>>)>>), <<>>>>,   \* earlier optional siblings stay optional
+        <<InterT(<<TypeLit(<<Prop("r", "ident", TRUE, Num)>>), Ref("Partial", <<Ref("Required", <<TypeLit(m)>>)>>)>>), <<>>>>,
+        <<InterT(<<Ref("O" \o tag, <<>>), Ref("Required", <<Ref("I" \o tag, <<>>)>>)>>),
+          <<Alias("O" \o tag, TypeLit(<<Prop("r", "ident", TRUE, Num)>>)), Interface("I" \o tag, <<>>, m)>>>>,
         <<Ref("Partial", <<InterT(<<TypeLit(<<Prop("b", "ident", FALSE, Num)>>), Ref("Omit", <<Ref("I" \o tag, <<>>), LitT("str", "b")>>)>>)>>),
           <<Interface("I" \o tag, <<>>, m)>>>>}
   \cup {<<Ref("I" \o tag, <<>>), <<Alias("A" \o tag, TypeLit(p[1])), Interface("I" \o tag, <<"A" \o tag>>, p[2])>>>> : p \in Parts(m)}     \* interface extends an object-type alias
@@ -62,8 +66,13 @@ Unresolvable == {<<Ref("Imported", <<>>), <<>>>>, <<Ref("Readonly", <<TypeLit(<<
                  <<ArrT(Str), <<>>>>, <<Kw("string"), <<>>>>}
 
 Placements == {"before", "after", "exported_before", "exported_after", "scoped", "scoped_shadowing"}
+(* two calls in one module: the module-level declaration, and a function scope that re-declares the same name *)
+(* with other members (`zz`) and calls defineComponent with the same annotation                             *)
+Shadowed(d) == IF d.k = "alias" THEN Alias(d.name, TypeLit(<<Prop("zz", "ident", FALSE, Str)>>))
+               ELSE Interface(d.name, <<>>, <<Prop("zz", "ident", FALSE, Str)>>)
 
 Raw == {[type |-> e[1], decls |-> e[2], place |-> p, resolvable |-> TRUE] : e \in Encodings, p \in Placements}
+       \cup {[type |-> e[1], decls |-> e[2], place |-> "dual_scope", resolvable |-> TRUE] : e \in {x \in Encodings : Len(x[2]) = 1}}
        \cup {[type |-> e[1], decls |-> e[2], place |-> "before", resolvable |-> FALSE] : e \in Unresolvable}
 
 CaseSeq ==
@@ -71,6 +80,7 @@ CaseSeq ==
   [i \in 1..Len(raw) |->
      [case |-> "C16-" \o ToString(i), prop |-> "C16", lang |-> "tsx", tscase |-> "props",
       type |-> raw[i].type, decls |-> raw[i].decls, place |-> raw[i].place, resolvable |-> raw[i].resolvable,
+      shadow |-> IF raw[i].place = "dual_scope" THEN <<Shadowed(raw[i].decls[1])>> ELSE <<>>,
       opts |-> [transformOn |-> FALSE, optimize |-> FALSE, mergeProps |-> TRUE, enableObjectSlots |-> TRUE, resolveType |-> TRUE,
                 patterns |-> <<>>, pragma |-> ""]]]
 
